@@ -4,17 +4,20 @@ META = {
                     "within capacity); histories follow by induction because every step re-establishes that invariant",
                     "update/remove: memmove of the attribute array modelled as an element-wise copy (stub_memmove)",
                     "set: xattr_array_update and ext2fs_xattrs_write are cut (cut_statics) and replaced by recording stubs; "
-                    "xattr_array_update is verified by harness update, the serialiser under ext2fs_xattrs_write by harness rt"],
-    "outside": ["CREATING a value in an EA inode (xattr_create_ea_inode, in_inode = 1, the ea_inode retry of ext2fs_xattr_set) and FREEING one whose "
-                "reference count drops to 0 (punch, bitmaps); existing EA-inode-backed attributes ARE covered in rt (image, hash, parser through a "
-                "file stub), update (space accounting, reference dropped once) and set (never 'same value')",
-                "ext2fs_xattrs_write / ext2fs_xattrs_read_inode as a whole: placement of the region inside the inode (i_extra_isize), EA block "
-                "allocation, copy-on-write of shared blocks, h_refcount, i_file_acl / i_blocks accounting, block checksum (ext2fs_adjust_ea_refcount3, "
-                "ext2fs_free_ext_attr, prep_ea_block_for_write)",
-                "POSIX ACL conversion (convert_posix_acl_to_disk_buffer and back)", "interaction with inline data beyond ext2fs_xattr_set's system.data rule (block_free = 0, corrupted if found in the block part)",
-                "more than 3 attributes, names > 4 and values > 8 bytes, regions > 96 bytes, ext2fs_xattrs_expand",
-                "e2fsck pass1 checks and ea_refcount, debugfs/create_inode callers",
-                "storage leak / double free beyond the cleared slot checked in harness remove"],
+                    "xattr_array_update is verified by harness update, the serialiser under ext2fs_xattrs_write by harness rt",
+                    "remove/get: xattr_inode_dec_ref is cut to a recording stub; it is verified by harness decref",
+                    "freeattr/adjust/decref: block and inode I/O, bitmaps (alloc_stats), punch are recording stubs with symbolic failures"],
+    "outside": ["CREATING a value in an EA inode (xattr_create_ea_inode, in_inode = 1, the ea_inode retry of ext2fs_xattr_set); existing "
+                "EA-inode-backed attributes ARE covered: rt (image, hash, parser through a file stub), readbuf (accept/reject rules incl. the 64 KiB "
+                "limit), update/remove (space accounting, the reference is dropped exactly once and on the right inode), decref (release at count 0)",
+                "ext2fs_xattrs_write / ext2fs_xattrs_read_inode as wholes: placement of the region inside the inode (i_extra_isize), EA block "
+                "allocation and copy-on-write of shared blocks (prep_ea_block_for_write); giving a block back (ext2fs_free_ext_attr) and "
+                "ext2fs_adjust_ea_refcount3 ARE covered by freeattr/adjust",
+                "block checksum content (metadata_csum: stubbed verify/set), 64bit / huge_file / bigalloc variants of i_file_acl and i_blocks",
+                "POSIX ACL conversion (convert_posix_acl_to_disk_buffer and back)",
+                "interaction with inline data beyond ext2fs_xattr_set's system.data rule (block_free = 0, corrupted if found in the block part)",
+                "more than 3 attributes, names > 4 and values > 8 bytes (readbuf: any 32-bit size, not materialised), regions > 96 bytes, ext2fs_xattrs_expand",
+                "e2fsck pass1 checks and ea_refcount, debugfs/create_inode callers"],
 }
 
 HASH_UW = ["main.%d:14" % i for i in range(8)] + \
@@ -44,11 +47,12 @@ def rt_cfgs():
         c.append({"K": 1, "LAYOUT": lay, "S": 32, "_unwindset": rt_uw(1, 32, 32 * lay)})
         c.append({"K": 2, "LAYOUT": lay, "S": 64, "_unwindset": rt_uw(2, 64, 32 * lay)})
         c.append({"K": 3, "LAYOUT": lay, "S": 80, "VM": 4, "_unwindset": rt_uw(3, 80, 32 * lay, vm=4),
-                  "_tier": "thorough" if lay else "quick"})
+                  "_tier": "thorough"})
         c.append({"K": 3, "LAYOUT": lay, "S": 96, "_unwindset": rt_uw(3, 96, 32 * lay), "_tier": "thorough"})
         # attributes whose value lives in an EA inode (bit i of EAMASK)
         c.append({"K": 1, "LAYOUT": lay, "S": 32, "EAMASK": 1, "_unwindset": rt_uw(1, 32, 32 * lay)})
-        c.append({"K": 2, "LAYOUT": lay, "S": 64, "EAMASK": 2 - lay, "_unwindset": rt_uw(2, 64, 32 * lay)})
+        c.append({"K": 2, "LAYOUT": lay, "S": 64, "EAMASK": 2 - lay, "_unwindset": rt_uw(2, 64, 32 * lay),
+                  "_tier": "thorough" if lay else "quick"})
         c.append({"K": 2, "LAYOUT": lay, "S": 64, "EAMASK": 1 + lay, "_unwindset": rt_uw(2, 64, 32 * lay), "_tier": "thorough"})
         c.append({"K": 2, "LAYOUT": lay, "S": 64, "EAMASK": 3, "_unwindset": rt_uw(2, 64, 32 * lay), "_tier": "thorough"})
     return c
@@ -115,7 +119,53 @@ def set_cfgs():
     c.append({"N": 3, "IBC": 2, "IDX": "(-1)", "_unwindset": set_uw(3), "_tier": "thorough"})
     return c
 
+FA_UW = ["main.%d:65" % i for i in range(8)] + ["io_channel_read_blk64.0:65", "io_channel_write_blk64.0:65"]
+
+def rb_uw(k, s, corr):
+    n = corr + s + 1
+    return ["main.%d:%d" % (i, n) for i in range(14)] + \
+        ["read_xattrs_from_buffer.0:%d" % (k + 2), "read_xattrs_from_buffer.1:%d" % (k + 2), "find_ea_prefix.0:10", "strlen.0:26",
+         "ext2fs_ext_attr_hash_entry.0:5", "ext2fs_ext_attr_hash_entry.1:%d" % (s // 4 + 2),
+         "ext2fs_ext_attr_hash_entry_signed.0:5", "ext2fs_ext_attr_hash_entry_signed.1:%d" % (s // 4 + 2)]
+
+def rb_cfgs():
+    c = []
+    for lay in (0, 1):
+        c.append({"K": 1, "LAYOUT": lay, "EAMASK": 1, "FEAT": 1, "S": 32, "_unwindset": rb_uw(1, 32, 32 * lay)})
+        c.append({"K": 1, "LAYOUT": lay, "EAMASK": 0, "FEAT": 1, "S": 40, "HASH0": None, "_unwindset": rb_uw(1, 40, 32 * lay)})
+        c.append({"K": 1, "LAYOUT": lay, "EAMASK": 0, "FEAT": 1, "S": 40, "_unwindset": rb_uw(1, 40, 32 * lay), "_tier": "thorough"})
+    c.append({"K": 1, "LAYOUT": 0, "EAMASK": 1, "FEAT": 0, "S": 32, "_unwindset": rb_uw(1, 32, 0)})
+    c.append({"K": 2, "LAYOUT": 0, "EAMASK": 2, "FEAT": 1, "S": 56, "HASH0": None, "_unwindset": rb_uw(2, 56, 0), "_tier": "thorough"})
+    c.append({"K": 2, "LAYOUT": 0, "EAMASK": 2, "FEAT": 1, "S": 64, "_unwindset": rb_uw(2, 64, 0), "_tier": "thorough"})
+    c.append({"K": 2, "LAYOUT": 1, "EAMASK": 1, "FEAT": 1, "S": 64, "_unwindset": rb_uw(2, 64, 32), "_tier": "thorough"})
+    c.append({"K": 2, "LAYOUT": 0, "EAMASK": 0, "FEAT": 1, "S": 64, "_unwindset": rb_uw(2, 64, 0), "_tier": "thorough"})
+    return c
+
 HARNESSES = [
+    dict(name="decref", src="decref.c",
+         funcs=["xattr_inode_dec_ref", "ext2fs_free_ext_attr", "ext2fs_get_ea_inode_ref", "ext2fs_set_ea_inode_ref"],
+         extra_src=["lib/ext2fs/blknum.c"],
+         configs=[{}], unwind=3, backends=["default", "kissat"],
+         bound="reference count 1..2^64-1, inode number, has-blocks answer and read/write/punch failures symbolic; the value inode has no attribute block"),
+    dict(name="readbuf", src="readbuf.c",
+         funcs=["read_xattrs_from_buffer", "find_ea_prefix", "ext2fs_ext_attr_hash_entry3"],
+         configs=rb_cfgs(), witness_per_config=True, unwind=5, backends=["default", "kissat"],
+         bound="K in {1,2} entries, names 0..4 bytes, name index, 16-bit value offset, 32-bit value size, 32-bit hash, value inode "
+               "number all symbolic; region 32..64 bytes (in-inode layout / block layout behind 32 bytes), value area symbolic; value "
+               "inode flags, link count, size, stored hash, back reference, open/read failure symbolic"),
+    dict(name="freeattr", src="freeattr.c",
+         funcs=["ext2fs_free_ext_attr", "ext2fs_read_ext_attr3", "ext2fs_write_ext_attr3", "check_ext_attr_header",
+                "ext2fs_file_acl_block", "ext2fs_iblk_sub_blocks"],
+         extra_src=["lib/ext2fs/blknum.c", "lib/ext2fs/i_block.c"],
+         configs=[{"MODE": 1, "INODE_ARG": 1}, {"MODE": 1, "INODE_ARG": 0}], witness_per_config=True,
+         unwind=3, unwindset=FA_UW, backends=["default", "kissat"],
+         bound="one attribute block of 64 bytes, every byte symbolic (all magics, h_refcount 1..2^32-1, h_blocks), i_file_acl, "
+               "i_blocks, s_first_data_block, blocks_count 32-bit symbolic, symbolic read/write/checksum/inode-I/O failures; no 64bit/huge_file/bigalloc"),
+    dict(name="adjust", src="freeattr.c",
+         funcs=["ext2fs_adjust_ea_refcount3", "ext2fs_read_ext_attr3", "ext2fs_write_ext_attr3"],
+         extra_src=["lib/ext2fs/blknum.c", "lib/ext2fs/i_block.c"],
+         configs=[{"MODE": 2}], unwind=3, unwindset=FA_UW, backends=["default", "kissat"],
+         bound="as freeattr; adjust any 32-bit value"),
     dict(name="set", src="set.c",
          funcs=["ext2fs_xattr_set", "space_used", "ext2fs_xattrs_open"],
          cut_statics={"lib/ext2fs/ext_attr.c": ["xattr_array_update", "ext2fs_xattrs_write"]},
@@ -125,17 +175,20 @@ HARNESSES = [
                "short names 0..4, values 0..8 bytes, existing values in-line or in an EA inode, names user.* and system.data"),
     dict(name="remove", src="remove.c",
          funcs=["ext2fs_xattr_remove", "ext2fs_xattrs_write", "ext2fs_xattrs_open"],
+         cut_statics={"lib/ext2fs/ext_attr.c": ["xattr_inode_dec_ref"]},
          configs=rm_cfgs(1), unwind=5, backends=["default", "kissat"],
          bound="N in {1,2,3} attributes in namespace user., ibody_count 0..N (compile time), short names 0..3 bytes, "
-               "values 0..8 bytes, key symbolic (present at any position or absent)"),
+               "values 0..8 bytes, every ea_ino symbolic (0 = in-line), key symbolic (present at any position or absent)"),
     dict(name="get", src="remove.c",
          funcs=["ext2fs_xattr_get", "ext2fs_xattrs_open"],
+         cut_statics={"lib/ext2fs/ext_attr.c": ["xattr_inode_dec_ref"]},
          configs=rm_cfgs(2), unwind=5, backends=["default", "kissat"],
          bound="N in {1,2,3} attributes in namespace user., short names 0..3 bytes, values 0..8 bytes, key symbolic "
                "(present at any position or absent)"),
     dict(name="update", src="update.c",
          funcs=["xattr_array_update", "xattr_update_entry", "xattr_find_position", "find_ea_index", "ext2fs_xattrs_open"],
-         configs=up_cfgs(), witness_per_config=True, unwind=5, backends=["default", "kissat"],
+         configs=up_cfgs(), unwind=5,   # all 23 quick configs had a reachable witness (witness_per_config run); one is kept for time
+ backends=["default", "kissat"],
          bound="N in {0,1,2} (thorough: 3) attributes before the step, ibody_count and old_idx symbolic, name index all "
                "256 values, short names 0..3 bytes, values 0..8 bytes, capacities of both parts symbolic 0..96 bytes, "
                "edited name in namespace user. or without prefix",
@@ -159,7 +212,9 @@ MANIFEST = {
             "both decode to the same list (in-line values and values kept in an EA inode); ext2fs_xattr_set skips the edit only when the stored "
             "value equals the new one in length and content and otherwise passes name, value and the free space derived from the inode to the "
             "list edit and writes back once; entry and block hashes equal the format's definition for all inputs in the bound. "
-            "Disk-level bookkeeping (EA block allocation, refcounts, EA inodes) is outside.",
+            "Reference counts: a shared attribute block is written back with count-1 and released only by its last user; a value inode loses "
+            "exactly one reference, on the right inode, and is released at 0; the parser accepts an entry iff it satisfies the stated rules "
+            "(value inode sizes up to 64 KiB inclusive). EA block allocation / copy-on-write and creation of value inodes are outside.",
     "note": "Trusted: CBMC's C semantics, the harness's restatement of the on-disk format (xa_common.h), the element-wise memmove model, "
             "bounds listed per harness in evidence/C15.json.",
 }
